@@ -37,10 +37,11 @@ type uField struct {
 	Inline    string
 	InFields  []uField
 	InOptions []string
-	// text-only variations the compiler must ignore for the compared output: an explicit
-	// `protoField = [n]` (numbering is positional: mapProperties) and a description
+	// a text-only variation the compiler must ignore for the compared output: an explicit
+	// `protoField = [n]` (numbering is positional: mapProperties)
 	ProtoField int
-	Desc       string
+	// the description: a leading comment of the proto field (compared: tag 14 lines)
+	Desc string
 }
 
 type eSchema struct {
@@ -173,7 +174,7 @@ func (u uField) itemCoq() string {
 }
 
 func (u uField) sfieldCoq() string {
-	return fmt.Sprintf("(mkSF %s %s %s %s)", bt(u.Name), u.itemCoq(), vh.BoolTerm(u.Required), vh.BoolTerm(u.Optional))
+	return fmt.Sprintf("(mkSF5 %s %s %s %s %s)", bt(u.Name), u.itemCoq(), vh.BoolTerm(u.Required), vh.BoolTerm(u.Optional), bt(u.Desc))
 }
 
 func (u uField) coq() string {
@@ -200,7 +201,16 @@ func (u uField) coq() string {
 		}
 		kind = fmt.Sprintf("(KKey %s %s %s)", vh.BoolTerm(u.Primary), foreign, optBytes(u.Tenant))
 	}
-	return fmt.Sprintf("(mkU %s %s %s %s)", bt(u.Name), kind, vh.BoolTerm(u.Required), vh.BoolTerm(u.Optional))
+	keyfmt := 0
+	if (u.Container == "" || u.Container == "map") && u.Inline == "" && u.Ext == "" && u.Obj == "" {
+		if u.Key {
+			keyfmt = map[string]int{"": 0, "id62": 1, "uuid": 2}[u.KeyFmt]
+		} else if u.J5Kind == "key" {
+			// a key-typed scalar that is not a schema.key declaration of the generator (`data x key:id62`)
+			keyfmt = map[string]int{"key": 0, "key:id62": 1, "key:uuid": 2}[u.J5Type]
+		}
+	}
+	return fmt.Sprintf("(mkU6 %s %s %s %s %s %d)", bt(u.Name), kind, vh.BoolTerm(u.Required), vh.BoolTerm(u.Optional), bt(u.Desc), keyfmt)
 }
 
 func coqList[T any](xs []T, f func(T) string) string {
